@@ -47,8 +47,9 @@ def tlc_jobs(tier):
             ("SpillAgg", f"SpillAgg_{tier}.cfg", "agg", "partitioned spilling aggregation: every input x threshold x hash function"),
             ("SpillJoin", f"SpillJoin_{tier}.cfg", "join", "partitioned spilling join: every input x join type x build side x threshold x hash function")]
     if not q:
-        jobs += [("ExternalSort", "ExternalSort_keys2_thorough.cfg", "sort", "external sort with two sort keys, all 16 direction / NULLS combinations"),
-                 ("ExternalSort", "ExternalSort_multipass_thorough.cfg", "sort", "multi-pass merges: 9..17 and 65..66 runs at fan-in 8, up to 7 runs at fan-in 2 and 3"),
+        jobs += [("ExternalSort", "ExternalSort_rows6_thorough.cfg", "sort", "external sort: 6 rows in <= 3 batches, three key values"),
+                 ("ExternalSort", "ExternalSort_keys2_thorough.cfg", "sort", "external sort with two sort keys, all 16 direction / NULLS combinations"),
+                 ("ExternalSort", "ExternalSort_multipass_thorough.cfg", "sort", "multi-pass merges: 9, 10, 11, 16, 17 runs at fan-in 8, 3..7 runs at fan-in 2 and 3"),
                  ("ExternalSort", "ExternalSort_runs65_thorough.cfg", "sort", "65, 66, 72, 73 runs: a carried run meets the second pass's cleanup (explicit error as built)"),
                  ("ExternalSort", "ExternalSort_empty_thorough.cfg", "sort", "zero-row batches")]
     return jobs
@@ -68,8 +69,8 @@ def run_models(ctx):
     quick = ctx.tier == "quick"
 
     def one(j):
-        return j, run_tlc(j[0], j[1], workers=(3 if quick else 6), timeout=3000, heap="6g", tag=f"C08-{j[1][:-4]}", coverage=not quick)
-    with cf.ThreadPoolExecutor(max_workers=3) as ex:
+        return j, run_tlc(j[0], j[1], workers=(3 if quick else 4), timeout=3000, heap="6g", tag=f"C08-{j[1][:-4]}", coverage=not quick)
+    with cf.ThreadPoolExecutor(max_workers=3 if quick else 4) as ex:
         results = list(ex.map(one, jobs))
     cases = {"sort": [], "agg": [], "join": []}
     for (mod, cfg, fam, label), res in results:
@@ -88,6 +89,8 @@ def run_models(ctx):
         for c in res.cases:
             c["src"] = cfg
         cases[fam] += res.cases
+    for fam in cases:      # TLC's workers print in a schedule-dependent order: fix it, so that the seed alone decides the sample
+        cases[fam].sort(key=lambda c: json.dumps(c, sort_keys=True))
     if not quick:
         negatives(ctx)
     return cases
@@ -168,7 +171,7 @@ def pick(cases, n, rng, feat, must=None):
 
 def concretise_sort(cases, rng, tier):
     quick = tier == "quick"
-    n = 420 if quick else 7000
+    n = 420 if quick else 5000
     sel = pick(cases, n, rng, sort_features, must=lambda c: c["path"] == "spill" and len(c["runs"]) >= 2)
     out = []
     for i, c in enumerate(sel):
@@ -193,14 +196,14 @@ def concretise_sort(cases, rng, tier):
             out.append(sum(len(b) for b in c["batches"][i:i + nb])); i += nb
         return out
     big = [c for c in sel if c["path"] == "spill" and 2 <= len(c["runs"]) <= 3 and sum(len(b) for b in c["batches"]) <= 4 and c["outcome"] == "rows" and max(run_rows(c)) >= 2]
-    for i, c in enumerate(big[: (2 if quick else 10)]):
+    for i, c in enumerate(big[: (1 if quick else 6)]):
         nk = len(c["spec"])
         h = {"op": "sort", "ktypes": [["i64", "utf8", "f64"][(i + j) % 3] for j in range(nk)], "batches": c["batches"], "spec": c["spec"],
-             "fetch": c["fetch"], "path": "spill", "runs": list(c["runs"]), "scale": 4500, "perm": rng.randrange(1, 1 << 30),
+             "fetch": c["fetch"], "path": "spill", "runs": list(c["runs"]), "scale": (MERGE_BUFFER_ROWS // sum(len(b) for b in c["batches"]) + 40) if (quick or i % 2) else 4500, "perm": rng.randrange(1, 1 << 30),
              "leaf": "seq", "thr": ["lo"], "prod": 0}
         out.append({"model": c, "h": h})
     # just below the slice size (8191 rows or fewer in total): same shape, must be right
-    for i, c in enumerate(big[: (1 if quick else 4)]):
+    for i, c in enumerate(big[: (1 if quick else 3)]):
         h = {"op": "sort", "ktypes": ["i64"] * len(c["spec"]), "batches": c["batches"], "spec": c["spec"], "fetch": c["fetch"], "path": "spill",
              "runs": list(c["runs"]), "scale": (MERGE_BUFFER_ROWS - 1) // sum(len(b) for b in c["batches"]), "perm": rng.randrange(1, 1 << 30),
              "leaf": "seq", "thr": ["hi"], "prod": 0}
@@ -227,7 +230,7 @@ def agg_features(c):
 
 def concretise_agg(cases, rng, tier):
     quick = tier == "quick"
-    sel = pick(cases, 150 if quick else 2500, rng, agg_features, must=lambda c: len(c["batches"]) >= 2)
+    sel = pick(cases, 150 if quick else 2000, rng, agg_features, must=lambda c: len(c["batches"]) >= 2)
     out = []
     for i, c in enumerate(sel):
         shape = AGG_SHAPES[i % 4]
@@ -256,7 +259,7 @@ def join_features(c):
 
 def concretise_join(cases, rng, tier):
     quick = tier == "quick"
-    sel = pick(cases, 200 if quick else 3000, rng, join_features)
+    sel = pick(cases, 200 if quick else 2500, rng, join_features)
     out = []
     for i, c in enumerate(sel):
         build = c["right"] if (c["br"] == 1 or c["jt"] == 3) else c["left"]
@@ -517,7 +520,7 @@ def judge_bag(item, rec, expected, classify):
 
 def classify_agg(item, r, want, why):
     h = item["h"]
-    if r["k"] == "rows" and h["shape"] != "global":
+    if r["k"] == "rows" and h["shape"] == "basic":            # COUNT/SUM/MIN/MAX without a DISTINCT aggregate: the vectorized group table
         got = collections.Counter(tuple(x) for x in r["rows"])
         nn = lambda c: collections.Counter({k: v for k, v in c.items() if k[0] != NULL})
         if nn(got) == nn(want) and any(k[0] == NULL for k in want):
@@ -576,7 +579,8 @@ def path_checks(item, rec):
                 probs.append(f"{h['id']}: the unlimited run spilled")
             continue
         if r.get("outside"):
-            facts["spill_dir_unobserved"] += 1
+            facts["spill_dir_unobserved"] += 1      # the harness lost track of the engine's spill counter twice in a row: no path evidence for this run
+            continue
         if h["op"] == "sort":
             if h["path"] == "spill":
                 if spilled != rec["total"]:
@@ -641,6 +645,8 @@ def assess(ctx, items, recs):
         for tag, v, detail in judge(item, rec):
             ctx.add("evaluations")
             kind = v.split(":", 1)[0]
+            if h["op"] == "sort" and tag != "unl" and h["path"] == "spill" and kind in ("ok", "error"):
+                facts[f"sort_model_says_{item['model']['outcome']}_real_{'error' if kind == 'error' else 'rows'}"] += 1
             verdicts[f"{h['op']}:{kind}"] += 1
             if kind == "error":
                 msg = detail or ""
